@@ -74,6 +74,8 @@ func vh_user_restore() {
 		if c.op == opSnapCreate && c.ok {
 			created = true
 			vAssert(c.a == want && c.b == pre.term, "C20.restore.snapshot-index-above-both")
+			// the stored snapshot must be exactly what the leader's in-memory position says, or followers that install it can never be matched again
+			vAssert(c.a == want && c.b == pre.term, "C12.restore.stored-snapshot-matches-leader-position")
 		}
 	}
 	if err == nil {
